@@ -88,6 +88,10 @@ pub struct ConnRec {
     pub destroyed_by_cancel: bool,
     /// HTTP/2: an idle entry for this connection is (believed to be) held by the pool
     pub in_pool: bool,
+    /// HTTP/2: a lower bound of the time stamp of the pool's idle entry (registration, or the issue instant of
+    /// the last request that was given this connection from the idle list)
+    pub refreshed_instant: Option<Instant>,
+    pub registered_instant: Option<Instant>,
     pub last_reuse_step: Option<u64>,
     pub reuse_calls_this_step: u32,
 }
@@ -126,6 +130,9 @@ pub struct ReqRec {
     pub probe: bool,
     pub issued_step: u64,
     pub issued_instant: Instant,
+    /// instant at which the last operation before this request's issue finished (everything that can touch
+    /// the pool's idle entries happened at or before it)
+    pub prev_activity: Option<Instant>,
     pub state: ReqState,
     pub dial: Option<usize>,
     pub conn: Option<usize>,
@@ -216,6 +223,7 @@ pub struct World {
     /// injected scheduling noise for the real-thread engine (0 = none)
     pub jitter: u32,
     pub offers: Vec<Offer>,
+    pub last_activity: Option<Instant>,
     /// real-thread stress mode: dials, handshakes, responses and bodies resolve by themselves
     pub auto: Option<AutoCfg>,
 }
@@ -247,6 +255,9 @@ pub fn origin_of(uri: &http::Uri) -> String {
 /// merge the two spellings; either is fine), every other difference in scheme, host or port is a different origin
 pub fn origin_norm(origin: &str) -> String {
     let (scheme, authority) = origin.split_once("://").unwrap_or(("", origin));
+    // user information is not part of where a connection goes: `http://user@h` and `http://h` name the same server
+    let authority = authority.rsplit_once('@').map(|(_, h)| h).unwrap_or(authority);
+    let origin = &format!("{scheme}://{authority}");
     let default = match scheme {
         "http" | "ws" => Some(":80"),
         "https" | "wss" => Some(":443"),
@@ -275,6 +286,7 @@ impl World {
             vtime_origin: None,
             jitter: 0,
             offers: vec![],
+            last_activity: None,
             auto: None,
         }
     }
@@ -584,6 +596,8 @@ impl Future for HsFuture {
                     reuse_calls: 0,
                     destroyed_by_cancel: false,
                     in_pool: false,
+                    refreshed_instant: None,
+                    registered_instant: None,
                     last_reuse_step: None,
                     reuse_calls_this_step: 0,
                 });
@@ -697,6 +711,13 @@ impl PoolableConnection<Body> for LabConn {
             c.live_handles += 1;
             c.reuse_calls += 1;
             c.in_pool = true;
+            let now = Instant::now();
+            if c.registered_instant.is_none() {
+                c.registered_instant = Some(now);
+            }
+            if c.refreshed_instant.is_none() {
+                c.refreshed_instant = Some(now);
+            }
             // register_connected clones once for the pool, then push() clones once per live waiter
             let n = if c.last_reuse_step == Some(step) { c.reuse_calls_this_step + 1 } else { 1 };
             c.last_reuse_step = Some(step);
